@@ -211,6 +211,14 @@ func (te *tableEngine) batchAddPlayers(players []JoinPlayer) error {
 
 	if len(playerRandomSeatIDs) > 0 {
 		if err := te.sm.RandomAssignSeats(playerRandomSeatIDs); err != nil {
+			// give back the fixed seats taken above: a refused batch changes nothing
+			if len(playerSeatIDs) > 0 {
+				fixedSeatPlayerIDs := make([]string, 0, len(playerSeatIDs))
+				for playerID := range playerSeatIDs {
+					fixedSeatPlayerIDs = append(fixedSeatPlayerIDs, playerID)
+				}
+				te.sm.RemoveSeats(fixedSeatPlayerIDs)
+			}
 			return err
 		}
 	}
